@@ -50,7 +50,7 @@ theorem solveX_preserves (X : McSx Rat → Prop)
     H maxIter { s := s, iter := 0, shrinkCounter := 0, stop := .running } h hx
   intro fuel
   induction fuel with
-  | zero => intro st _ hx1; exact hx1
+  | zero => intro st h1 hx1; exact hXu st.s h1 hx1
   | succ fuel ih =>
     intro st h1 hx1
     have hb := solveBodyX_spec eps st h1
